@@ -45,9 +45,16 @@ func filterPair(spec string) (func([]byte) bool, func(string) bool) {
 	return func(t []byte) bool { return set[string(t)] }, func(n string) bool { return set[n] }
 }
 
-func one(blocks []*cm.RootBlock, refs cm.ReferenceMap, soft cm.SoftBreakBehavior, ignore bool, spec string) error {
+// one checks one configuration. With a nil r a fresh renderer is made; otherwise
+// the caller's renderer value is set to the configuration and used (a caller
+// may keep one HTMLRenderer and change its fields between calls: the output
+// depends on the fields as they are at the call, never on earlier calls).
+func one(r *cm.HTMLRenderer, blocks []*cm.RootBlock, refs cm.ReferenceMap, soft cm.SoftBreakBehavior, ignore bool, spec string) error {
 	libF, refF := filterPair(spec)
-	r := &cm.HTMLRenderer{ReferenceMap: refs, SoftBreakBehavior: soft, IgnoreRaw: ignore, FilterTag: libF}
+	if r == nil {
+		r = &cm.HTMLRenderer{}
+	}
+	r.ReferenceMap, r.SoftBreakBehavior, r.IgnoreRaw, r.FilterTag = refs, soft, ignore, libF
 	cfg := refrender.Config{Soft: soft, IgnoreRaw: ignore, Filter: refF}
 	var parts []string
 	for bi, b := range blocks {
@@ -128,10 +135,16 @@ func prop(c harness.Case) harness.Result {
 	if c.S["names"] == "" {
 		specs = specs[:4]
 	}
+	// every other case keeps one renderer value for all its configurations
+	var shared *cm.HTMLRenderer
+	if len(c.In)%2 == 0 {
+		shared = &cm.HTMLRenderer{}
+		res.Labels = append(res.Labels, "one_renderer_value_reconfigured")
+	}
 	for _, soft := range []cm.SoftBreakBehavior{cm.SoftBreakPreserve, cm.SoftBreakSpace, cm.SoftBreakHarden} {
 		for _, ign := range []bool{false, true} {
 			for _, spec := range specs {
-				if err := one(blocks, refs, soft, ign, spec); err != nil {
+				if err := one(shared, blocks, refs, soft, ign, spec); err != nil {
 					res.Err = err
 					return res
 				}
